@@ -76,7 +76,7 @@ func VerifC23_sentinel() {
 	w.reports["s1:1"] = []string{"m1:1", "m2:1"}[verifChoose(2)]
 	w.reports["s2:1"] = "m2:1"
 	w.role["m1:1"] = []string{roles[verifChoose(3)]}
-	w.role["m2:1"] = []string{roles[verifChoose(2)], roles[verifChoose(2)]} // may change between two ROLE calls
+	w.role["m2:1"] = []string{roles[verifChoose(2)], roles[verifChoose(2)], "master"} // may change between ROLE calls; eventually it is the master (the client retries forever otherwise)
 	w.dialFail["m1:1"] = verifChoose(3) == 0
 	opt := &ClientOption{}
 	opt.Sentinel.MasterSet = "mymaster"
@@ -127,11 +127,17 @@ func VerifC23_sentinel() {
 		// traffic follows the published master
 		r := c.Do(context.Background(), c.B().Set().Key("k").Value("v").Build())
 		_ = r
-		mc := c.mConn.Load().(*verifStubConn)
-		verifAssert(len(mc.log) > 0 && mc.log[len(mc.log)-1][0] == "SET", "primary traffic goes to the published master")
-		if mc.closed == 0 {
-			verifAssert(!w.wrong[mc], "an open published master answered ROLE as master")
+		got := 0
+		for _, sc := range w.conns {
+			for _, l := range sc.log {
+				if l[0] == "SET" {
+					got++
+					verifAssert(sc.addr == "m1:1" || sc.addr == "m2:1", "primary traffic goes to a data node a sentinel reported as master")
+					verifAssert(!w.wrong[sc] || sc.closed > 0, "primary traffic never reaches an open node that answered ROLE with the wrong role")
+				}
+			}
 		}
+		verifAssert(got == 1, "the command is sent exactly once")
 	}
 	verifReach("done")
 }
